@@ -87,6 +87,24 @@ def sig_of(rec):
             "max_or_min_called_earlier_for_kind": any(h in ("max", "min") for h in earlier_same_kind)}
 
 
+def consistent_with_dispatch(rng, e):
+    """Arguments that realise the model's dispatch flag e.py (AggJit.tla IsPy): std/var take the Python path iff
+    ddof # 0; median iff it keeps the missing values of a column that holds some."""
+    from harness import jit_runner
+    py = bool(e.get("py", False))
+    hs = {e["h"], e.get("h2", "")}
+    if hs & {"std", "var"}:
+        e["a"]["ddof"] = rng.choice([1, 2]) if py else 0
+    if "median" in hs:
+        has_na = [i for i, (g, xs) in enumerate(jit_runner.LAYOUTS) if jit_runner.NAV in xs]
+        if py:
+            e["a"]["dropna"] = False
+            if e["layout"] not in has_na:
+                e["layout"] = rng.choice(has_na)
+        elif e["layout"] in has_na and e["kind"] == "float":
+            e["a"]["dropna"] = True
+
+
 def gen_histories(ctx, helpers, kinds, maxcalls, maxprocs, two=False):
     cfg = ("INIT Init\nNEXT Next\nINVARIANT Inv\nCONSTANTS\n MaxCalls = %d\n MaxProcs = %d\n Emit = TRUE\n Helpers = {%s}\n Kinds = {%s}\n TwoHelperCalls = %s\n"
            % (maxcalls, maxprocs, ", ".join('"%s"' % h for h in helpers), ", ".join('"%s"' % k for k in kinds), "TRUE" if two else "FALSE"))
@@ -188,6 +206,7 @@ def run(ctx):
                 e["a"] = {"dropna": rng.choice([True, False]), "idx": rng.choice([0, 1, -1, 5]), "q4": rng.choice([1, 2, 3]),
                           "ddof": rng.choice([0, 0, 1, 2])}
                 e["big"] = rng.random() < 0.25
+                consistent_with_dispatch(rng, e)
     records = []
     with concurrent.futures.ThreadPoolExecutor(16) as ex:
         futs = {ex.submit(run_history, h, ctx.seed): h for h in matrix + chosen}
